@@ -488,19 +488,19 @@ def run_tz_case(case: dict[str, Any], via_file: bool = False) -> dict[str, Any]:
     xml = ksr_xml(timeline, case["zsk"], case["style"])
     _, policy = build(timeline, case["zsk"], case["policy"], case["flags"])
     parsed: Any = None
+    try:
+        parsed = [(lib.dt_us(b.inception), lib.dt_us(b.expiration)) for b in request_from_xml(xml).bundles]
+    except Exception:  # noqa: BLE001  (the verdict below reports it)
+        pass
 
     def go() -> Any:
-        nonlocal parsed
         if via_file:
             with tempfile.TemporaryDirectory(prefix="corr_C05_") as tmp:
                 f = Path(tmp, "ksr.xml")
                 f.write_text(xml)
-                req = load_ksr(f, policy, raise_original=True)
-                parsed = [(lib.dt_us(b.inception), lib.dt_us(b.expiration)) for b in req.bundles]
+                load_ksr(f, policy, raise_original=True)
                 return True
-        req = request_from_xml(xml)
-        parsed = [(lib.dt_us(b.inception), lib.dt_us(b.expiration)) for b in req.bundles]
-        return validate_request(req, policy)
+        return validate_request(request_from_xml(xml), policy)
 
     with PinnedClock() as clock:
         clock.now_us = case["now"]
